@@ -7,12 +7,20 @@ NaN = float("nan")
 SHARED = ["count", "valid_count", "sum", "mean"]
 
 
-def agg_inputs(rng, n, k=None, need_missing=False):
-    """Fact + weights + policy for n rows."""
+def agg_inputs(rng, n, k=None, need_missing=False, tiny_weights=False):
+    """Fact + weights + policy for n rows.  tiny_weights: one case in eight has all its weights multiplied by
+    2^-30 or 2^-40 (exact; weights normalised to a tiny total): every weighted count and sum scales with them,
+    means and the set of missing cells do not change at all."""
     if k is None:
         k = gen.wpick(rng, [(None, 5), (1, 1), (2, 2), (3, 2)])
     fact = gen.fact_case(rng, n, k=k)
     weights = gen.weight_case(rng, n)
+    if tiny_weights and weights["kind"] != "none" and rng.random() < 0.125:
+        sc = float(gen.pick(rng, [2.0 ** -30, 2.0 ** -40]))
+        v = numpy.asarray(weights["values"], dtype=float)
+        scaled = numpy.where(numpy.isfinite(v) & (numpy.abs(v) < 1e200), v * sc, v)
+        weights["values"] = float(scaled) if weights["kind"] == "scalar" else scaled
+        weights["scale"] = sc
     return {"fact": fact, "weights": weights, "ignore_missing": bool(rng.random() < 0.5)}
 
 
@@ -158,7 +166,9 @@ def tolerance(case, agg):
         mag = oracles.magnitude(None, weights, case["n"])
     else:
         mag = oracles.magnitude(fact, weights, case["n"])
-    tol = 1e-9 * max(1.0, mag)
+    # weights given on a tiny scale (an exact power of two): counts and sums scale with them, so does their tolerance
+    sc = float(case["weights"].get("scale", 1.0))
+    tol = 1e-9 * max(1.0, mag / sc) * (1.0 if agg == "mean" else sc)
     if agg == "mean":
         tol *= 20  # a mean divides the rounding error of a sum by a cell weight >= 0.05
     return tol
